@@ -177,7 +177,7 @@ pub fn configs(ctx: &Ctx) -> Vec<DistSpec> {
     ] {
         v.push(DistSpec::i(Family::Hypergeometric, &t, &[]));
     }
-    for l in [1.8e19, 1.844e19, 1e17] {
+    for l in [1.8e19, 1.844e19, 1e17, 1e18, 5e18, 1.1e19] {
         v.push(DistSpec::f(Family::Poisson, Scalar::F64, &[l]));
     }
     // the infinite results the documentation names: Exp(0), Gamma with an infinite
@@ -560,6 +560,9 @@ impl Engine for FaultEngine {
         Some((sig, case))
     }
 
+    fn describe(&self, ctx: &Ctx, index: usize) -> String {
+        configs(ctx).get(index).map(|s| s.label()).unwrap_or_default()
+    }
     fn run_case(&self, ctx: &Ctx, index: usize) -> CaseResult {
         let cfgs = configs(ctx);
         let spec = &cfgs[index];
